@@ -184,6 +184,9 @@ func (q *querier) resolveRefQuery(ctx context.Context, repo vcs.Repository, majo
 				break
 			}
 		}
+		if version != nil {
+			break
+		}
 	}
 
 	// If the closes tagged version is an exact match, return it.
